@@ -132,6 +132,11 @@ def cases(tier, seed):
                 if jw and not model.startswith(("qc", "spin-long")):
                     continue
                 yield {"k": "swap", "model": model, "swap_jw": jw, "algo": algo, "L": 2 if quick else 3}
+    # three spatial orbitals (six sites, many more bond operators): longer swap histories on a larger operator
+    for jw in (False, True):
+        for algo in ("Hopcroft-Karp", "qr"):
+            # (quick: all histories of length <= 2 plus three of length 3 -- swap, swap back, swap the neighbouring pair)
+            yield {"k": "swap", "model": "qc3", "swap_jw": jw, "algo": algo, "L": 2 if quick else 3, "extra": [[1, 1, 0], [2, 2, 1], [3, 2, 2], [0, 0, 1]]}
     for model in ("spin5", "vibronic", "qc2", "qc2-noqn"):
         for driver in ("gs", "ps2"):
             for ofs in ("ofs_d", "ofs_s", "ofs_ds", "ofs_debug"):
@@ -218,6 +223,10 @@ def swap_model(name, seed):
         sh, aseri = h_qc.int_to_h(h, eri)
         basis, terms = h_qc.qc_model(sh, aseri, conserve_qn=(name == "qc2"))
         return basis, terms
+    if name.startswith("qc3"):
+        h, eri = integrals(3, 0b111111, "generic", seed)
+        sh, aseri = h_qc.int_to_h(h, eri)
+        return h_qc.qc_model(sh, aseri, conserve_qn=(name == "qc3"))
     if name == "qc1-U":
         # one spatial orbital with vanishing one-electron block: H = U n_alpha n_beta, a single product term
         sh, aseri = h_qc.int_to_h(np.zeros((1, 1)), np.full((1, 1, 1, 1), 0.7))
@@ -247,7 +256,7 @@ def swap_model(name, seed):
     return list(ch.basis), ch.h_terms
 
 
-def check_swaps(basis0, terms, algo, jw, L, viol, label, sigclass):
+def check_swaps(basis0, terms, algo, jw, L, viol, label, sigclass, extra=()):
     """every sequence of <= L adjacent swaps from the freshly built operator; returns the number of sequences completed"""
     from renormalizer.model import Model
     from renormalizer.mps import Mpo
@@ -258,8 +267,9 @@ def check_swaps(basis0, terms, algo, jw, L, viol, label, sigclass):
     w0 = np.linalg.eigvalsh((D0 + D0.conj().T) / 2)
     mixed = jw == "mixed"
     kindname = "mixed" if mixed else ("jw" if jw else "plain")
-    for ln in range(1, L + 1):
-        for seq0 in itertools.product(range(n - 1), repeat=ln):
+    for ln in list(range(1, L + 1)) + [None]:
+        for seq0 in (itertools.product(range(n - 1), repeat=ln) if ln is not None else [tuple(e) for e in extra if len(e) > L]):
+          ln = len(seq0)
           for flags in (itertools.product((False, True), repeat=ln) if mixed else [(jw,) * ln]):
             if mixed and len(set(flags)) == 1:
                 continue      # uniform sequences are the other cases
@@ -278,7 +288,10 @@ def check_swaps(basis0, terms, algo, jw, L, viol, label, sigclass):
                     import traceback
                     tb = traceback.extract_tb(sys.exc_info()[2])
                     lib = [f.name for f in tb if "/renormalizer/" in f.filename]
-                    add(viol, f"C17:swap:exception:{type(e).__name__}:{lib[-1] if lib else '?'}:{kindname}", f"{label} swaps {seq} with swap_jw flags {flags}: {e!r}")
+                    src = [f.line or "" for f in tb if "/renormalizer/" in f.filename]
+                    what = "duplicate-table-rows" if (src and "np.unique(table" in src[-1]) else ("bond-operator-count" if (src and "new_out_ops3" in src[-1]) else "other")
+                    add(viol, f"C17:swap:exception:{type(e).__name__}:{lib[-1] if lib else '?'}:{kindname}:{sigclass if sigclass != 'qc' else label}:{what}",
+                        f"{label} algo={algo} swaps {seq} with swap_jw flags {flags}: {e!r} at `{src[-1].strip() if src else '?'}`")
                     ok = False
                     break
                 # reference: exchange tensor factors p, p+1 (and apply the fermionic sign for swap_jw)
@@ -309,7 +322,7 @@ def run_swap(desc, seed):
     basis0, terms = swap_model(desc["model"], seed)
     viol = {}
     sigclass = "qc" if desc["model"].startswith("qc") else desc["model"].split("-")[0]
-    nseq = check_swaps(basis0, terms, desc["algo"], desc["swap_jw"], desc["L"], viol, desc["model"], sigclass)
+    nseq = check_swaps(basis0, terms, desc["algo"], desc["swap_jw"], desc["L"], viol, desc["model"], sigclass, extra=desc.get("extra", ()))
     return {"nontrivial": nseq > 0, "counters": {"swap_sequences": nseq}, "outcome": f"swap:{'viol' if viol else 'ok'}", "viol": list(viol.values()), "sample": {"desc": desc, "sequences": nseq}}
 
 
